@@ -5,8 +5,8 @@ from vt import docgen, exec_common as X, harness, refexec, sched as S, smodel, w
 from vt.values import canon
 
 LEVEL = "exploration"
-N_CASES = {"quick": 160, "thorough": 4000}
-CAP = {"quick": 40, "thorough": 400}
+N_CASES = {"quick": 160, "thorough": 800}
+CAP = {"quick": 40, "thorough": 200}
 REQS_PER_SCHEMA = 3
 MIN_NONTRIVIAL = 30
 RULE = ("case = random small schema with @vtgate suspension points on fields and arguments x the 2x2x2 engine "
